@@ -52,6 +52,7 @@ class Cfg:
     use_k: bool = True                       # whether the unique key k may be used as an int term
     clones: Tuple[int, int] = (1, 8)         # probability (num, den) of making some records value-equal EntV clones
     kw_vars: Tuple[int, int] = (0, 1)        # probability that a variable is declared as T(From(d), field=const)
+    const_operands: Tuple[int, int] = (1, 12)  # probability that an operand of and/or is a constant / variable-free test
 
 
 def chance(draw, num: int, den: int) -> bool:
@@ -263,7 +264,17 @@ def cond_tree(draw, ctx: Ctx, depth: int, under_not: bool = False):
         return ["not", draw(st.sampled_from(["not_", "not_", "~"])), cond_tree(draw, ctx, depth - 1, True)]
     n = draw(st.sampled_from([2, 2, 2, 3]))
     form = draw(st.sampled_from(cfg.and_forms))
-    return [k, form, [cond_tree(draw, ctx, depth - 1, under_not) for _ in range(n)]]
+    kids = [cond_tree(draw, ctx, depth - 1, under_not) for _ in range(n)]
+    if chance(draw, cfg.const_operands[0], cfg.const_operands[1]):
+        # a Python constant, or a membership test between two constants, as one of the operands (and_/or_ accept
+        # plain values; such an operand has no variable of its own)
+        c = draw(st.sampled_from([["const", True], ["const", False],
+                                  ["in", "in_", ["const", 2], ["const", enc((1, 2, 3))]],
+                                  ["in", "contains", ["const", 5], ["const", enc((1, 2, 3))]]]))
+        kids[draw(st.integers(0, len(kids) - 1))] = c
+        if all(x[0] == "const" or (x[0] == "in" and x[2][0] == "const" and x[3][0] == "const") for x in kids):
+            kids[0] = leaf(draw, ctx, pick_vars(draw, ctx, False))
+    return [k, form, kids]
 
 
 def template_cond(draw, ctx: Ctx):
